@@ -58,10 +58,14 @@ def schedule(rng, length=None):
                 ops.append('tbl clear 0')
         elif c < 0.58:
             ops.append('fsm step 0 %d' % rng.choice([0, 0, 2, 2, 8, 8, 4, 6, 11, 9, 3, 1, 5, 7, 12, -1, -2, -3, rng.randint(-128, 255), 256, 65535]))
+            if rng.random() < 0.15:
+                ops[-1] = ops[-1].replace('fsm step', 'fsm stepj') + ' %d' % rng.choice([1, 1, 999, 1000, 1500])     # the clock moves during the call
             if rng.random() < 0.6:
                 ops.append('map resetinact 0')
         elif c < 0.66:
             ops.append('fsm step 2 %d' % rng.choice([-1, 0, 1, 2, 3, 4, 5, 6, 7, 2, 3, 4, 5, 1, 8, 11, rng.randint(-5, 12)]))
+            if rng.random() < 0.15:
+                ops[-1] = ops[-1].replace('fsm step', 'fsm stepj') + ' %d' % rng.choice([1, 1, 999, 1000, 1500])
         elif c < 0.74:
             ops.append('fsm step 1 %d' % rng.choice([0, 1, 2, 3, 3, 3, -1, 4, rng.randint(-3, 8)]))
         elif c < 0.84:
@@ -131,4 +135,33 @@ def schedule2(rng):
             # the daemon's timer serves every interface in turn, at the same clock reading
             other = 'tick 3 4 1 wired' if src is a else 'tick 0 1 0 wired'
             out.append(other)
+    return out
+
+
+def moving_clock_cells(kind, nstates, timeouts, inputs):
+    """pairs of events with the clock moving on WHILE the first one is handled (`fsm stepj`: the reading taken on entry is in
+    one second, a later reading in the next): every state x first event x phase of the entry within its second x jump x
+    gap to the second event around the timeout x second event.  The event time is the reading on entry."""
+    out = []
+    for s in range(nstates):
+        t = timeouts[s] if s < len(timeouts) else 0
+        for phase in (999, 500, 0):
+            for d in (1, 1000, 2500):
+                ops = ['fsm new 0 %s' % kind]
+                now = 0
+                base = 50
+                for e1 in inputs:
+                    for gap in sorted({0, max(t - 1, 0), t, t + 1, t + 2}):
+                        for e2 in inputs:
+                            entry1 = base * 1000 + phase
+                            ops.append('clock %d' % (entry1 - now)); now = entry1
+                            ops.append('fsm set 0 %d %d' % (s, base))
+                            ops.append('fsm stepj 0 %d %d' % (e1, d)); now += d
+                            entry2 = (base + gap) * 1000 + (0 if (base + gap) * 1000 >= now else phase)
+                            if entry2 < now:
+                                entry2 = now
+                            ops.append('clock %d' % (entry2 - now)); now = entry2
+                            ops.append('fsm step 0 %d' % e2)
+                            base += gap + 40
+                out.append(('mclk_s%d_p%d_d%d' % (s, phase, d), ops))
     return out
